@@ -218,8 +218,9 @@ def check(prop, tier):
             common.machinery("fix-run traces: %s %s" % (fst["tlc_errors"][:2], fst["unfinished"][:3]))
         mine += [f for f in fr["findings"] if f["property"] == prop]
         extra["fix_run_traces"] = fst["traces"]
-    if prop == "C14":
+    if prop in ("C14", "C20"):
         # the exit status and the JUnit / JSON entries of multi-file, multi-job invocations, as behaviours of spec/Main.tla
+        # (C20: one --fix_only selection given for several files of one invocation)
         import batchfam
 
         bf, binfo = batchfam.extra_findings(prop, tier)
